@@ -129,7 +129,12 @@ def run_unit(verif, repo, unit, workdir, rlimit=30, vacuity=False, threads=4):
             continue
         labs = []
         for s in prim + [s for s in spans if s not in prim]:
-            for ln in range(s["line_start"], s["line_end"] + 1):
+            rng = list(range(s["line_start"], s["line_end"] + 1))
+            # a label comment standing alone on the line just above the clause also names it
+            prev = s["line_start"] - 1
+            if 1 <= prev <= len(lines) and re.fullmatch(r"\s*/\*@[^*]*\*/\s*", lines[prev - 1]):
+                rng.insert(0, prev)
+            for ln in rng:
                 for l in line_labels.get(ln, []):
                     if l not in labs:
                         labs.append(l)
